@@ -375,10 +375,10 @@ func genC17Clone(t *rapid.T) c17CloneCase {
 	n := rapid.IntRange(1, 25).Draw(t, "n")
 	keys := []string{"a", "b", "c", "_cid", "é"}
 	for i := 0; i < n; i++ {
-		st := c17CloneStep{Op: rapid.SampledFrom([]string{"clone", "cloneFn", "reqHeader", "reqHeader", "respHeader", "timeout", "ephemeral"}).Draw(t, "op")}
+		st := c17CloneStep{Op: rapid.SampledFrom([]string{"clone", "cloneFn", "reqHeader", "reqHeader", "respHeader", "timeout", "ephemeral", "siblingEphemeral"}).Draw(t, "op")}
 		st.Target = rapid.IntRange(0, 7).Draw(t, "target")
 		switch st.Op {
-		case "reqHeader", "respHeader", "ephemeral":
+		case "reqHeader", "respHeader", "ephemeral", "siblingEphemeral":
 			st.K = rapid.SampledFrom(keys).Draw(t, "k")
 			st.V = rapid.StringMatching(`[a-z]{0,5}`).Draw(t, "v")
 		case "timeout":
@@ -412,6 +412,8 @@ func execC17Clone(c c17CloneCase) *ev.Failure {
 	var ctxs []frugal.FContext
 	var models []*ctxModel
 	var root frugal.FContext
+	var rbuf *thrift.TMemoryBuffer // received root: the connection's protocol, reused for later requests
+	var rprot *frugal.FProtocol
 	switch c.Root {
 	case "impl":
 		root = frugal.NewFContext("root-cid")
@@ -421,7 +423,9 @@ func execC17Clone(c c17CloneCase) *ev.Failure {
 		root = fc
 	case "received":
 		wire := refEncodeHeaders([]KV{kv("_opid", "5"), kv("_cid", "root-cid"), kv("_timeout", "5000"), kv("u", "v")})
-		rc, err := pf.GetProtocol(&thrift.TMemoryBuffer{Buffer: bytes.NewBuffer(wire)}).ReadRequestHeader()
+		rbuf = &thrift.TMemoryBuffer{Buffer: bytes.NewBuffer(wire)}
+		rprot = pf.GetProtocol(rbuf)
+		rc, err := rprot.ReadRequestHeader()
 		if err != nil {
 			return ev.Failf("harness:read", "%v", err)
 		}
@@ -507,6 +511,19 @@ func execC17Clone(c c17CloneCase) *ev.Failure {
 		case "timeout":
 			ctx.SetTimeout(time.Duration(st.Ms) * time.Millisecond)
 			m.req["_timeout"] = strconv.Itoa(st.Ms)
+		case "siblingEphemeral":
+			// the next request on the same connection (same FProtocol) sets an ephemeral property:
+			// the contexts of one connection share that map by design, clones made earlier do not
+			if rprot == nil {
+				continue
+			}
+			rbuf.Write(refEncodeHeaders([]KV{kv("_opid", "6"), kv("_cid", "next-cid")}))
+			sib, err := rprot.ReadRequestHeader()
+			if err != nil {
+				return ev.Failf("harness:read", "%v", err)
+			}
+			sib.(frugal.FContextWithEphemeralProperties).AddEphemeralProperty(st.K, st.V)
+			models[0].eph[st.K] = st.V // the root received context lives on that connection
 		case "ephemeral":
 			if w, ok := ctx.(frugal.FContextWithEphemeralProperties); ok && m.hasEph {
 				w.AddEphemeralProperty(st.K, st.V)
